@@ -89,6 +89,27 @@ def plan(tier, seed):
                                     grid_class=('out_of_range' if i % 6 == 2 else None), allow_beta2=True, allow_dtfrac=True, allow_elastic=True)
         cfg['max_steps'] = min(cfg['max_steps'], 800 if tier == 'quick' else 4000)
         cases.append({'kind': 'free', 'cfg': cfg, 'weight': precip_gen.cfg_weight(cfg)})
+    # multi-phase Al-Mg-Si at temperatures where the first-listed phase is stable and a later-listed one has no two-phase
+    # equilibrium at the initial state, and the reverse order (added after seeded change F10: setup() crashed when an
+    # earlier-listed phase had been solved and a later-listed one was unstable)
+    for j in range(2 if tier == 'quick' else 12):
+        rng = core.case_rng(seed, PROPERTY, 6000 + j)
+        cfg = precip_gen.gen_config(rng, system='almgsi', tier=tier, allow_noniso=False, grid_class='in_range', sites=['bulk', 'dislocations'])
+        ph = ['MGSI_B_P', 'MG5SI6_B_DP'] if j % 2 == 0 else ['MG5SI6_B_DP', 'MGSI_B_P']
+        if j % 4 >= 2:
+            ph = ph + ['U2_PHASE']
+        cfg['phases'] = ph
+        cfg['gamma'] = {p: float(precip.ALMGSI_GAMMA[p]) for p in ph}
+        cfg['VmBeta'] = {p: 1e-5 for p in ph}
+        cfg['site'] = {p: 'dislocations' for p in ph}
+        cfg['shape'], cfg['strain'] = {}, {}
+        cfg.pop('parents', None)
+        cfg.pop('volSpec', None)
+        cfg['x0'] = [0.0072, 0.0057]
+        cfg['schedule'] = {'kind': 'iso', 'T': float(rng.uniform(600, 640))}
+        cfg['segments'] = [10.0, 20.0]
+        cfg['max_steps'] = 150 if tier == 'quick' else 400
+        cases.append({'kind': 'free', 'cfg': cfg, 'weight': 2e5})
     for j in range(2 if tier == 'quick' else 16):        # complete dissolution above the solvus
         rng = core.case_rng(seed, PROPERTY, 5000 + j)
         cfg = precip_gen.gen_dissolution_config(rng, ['nialcr', 'alzr', 'almgsi'][j % 3], tier)
